@@ -132,7 +132,8 @@ let () =
                str_rules (deadlock_program (reduce_pn !pn (space_of_string (a 1))) (space_of_string (a 2)) (spaces_of_string (a 3)))
            | "control" ->
                let mx = opt_nat (a 3) in
-               let res = succession_control !net !cur (space_of_string (a 1)) (a 2 = "all") mx (nats_of_string (a 4)) in
+               let skipff = (try a 5 = "1" with _ -> false) in
+               let res = succession_control_ff !net !cur (space_of_string (a 1)) (a 2 = "all") mx (nats_of_string (a 4)) skipff in
                if res = [] then "-" else String.concat " " (List.map (fun ((succ, ctl), ok) ->
                  (if succ = [] then "-" else String.concat ";" (List.map string_of_space succ)) ^ "!" ^
                  (if ctl = [] then "-" else String.concat "/" (List.map (fun c -> if c = [] then "~" else String.concat ";" (List.sort compare (List.map string_of_space c))) ctl)) ^ "!" ^
